@@ -207,6 +207,10 @@ class SFTPServer(BaseSFTP, SubsystemHandler):
             name of the file to alter (should usually be an absolute path).
         :param .SFTPAttributes attr: attributes to change.
         """
+        # the size first: truncating updates the modification time, so it has
+        # to come before the requested times are applied
+        if attr._flags & attr.FLAG_SIZE:
+            os.truncate(filename, attr.st_size)
         if sys.platform != "win32":
             # mode operations are meaningless on win32
             if attr._flags & attr.FLAG_PERMISSIONS:
@@ -215,8 +219,6 @@ class SFTPServer(BaseSFTP, SubsystemHandler):
                 os.chown(filename, attr.st_uid, attr.st_gid)
         if attr._flags & attr.FLAG_AMTIME:
             os.utime(filename, (attr.st_atime, attr.st_mtime))
-        if attr._flags & attr.FLAG_SIZE:
-            os.truncate(filename, attr.st_size)
 
     # ...internals...
 
